@@ -250,7 +250,7 @@ def c01_m_from_ordinal_and_flags(o):
     o.claim("packed_word", z3.Implies(some, yof == y.e * 8192 + od.e * 16 + fl.e))
 
 
-@obligation(prop="C01", tier="thorough", timeout=900, shards=8,
+@obligation(prop="C01", tier="thorough", timeout=3000, shards=8,
             desc="weekday() of every date equals (reference day number - 1) mod 7 with Monday = 0 (0001-01-01 is a Monday): the weekday part of every YEAR_TO_FLAGS cell against the day-count calendar",
             bounds="all dates (representation invariant: year in range, ordinal <= 365/366, flags = YearFlags::from_year(year)); split per year mod 400")
 def c01_m_weekday(o):
